@@ -130,7 +130,7 @@ func (solarWeek *SolarWeek) Next(weeks int, separateMonth bool) *SolarWeek {
 			} else {
 				c = c.NextDay(-7)
 			}
-			week := NewSolarWeekFromYmd(c.GetYear(), c.GetMonth(), c.GetDay(), solarWeek.start)
+			week = NewSolarWeekFromYmd(c.GetYear(), c.GetMonth(), c.GetDay(), solarWeek.start)
 			weekMonth := week.GetMonth()
 			if month != weekMonth {
 				index := week.GetIndex()
